@@ -1,0 +1,45 @@
+//go:build verif
+
+// Contracts for govc (contract-based deductive verification); comments only.
+package elastic
+
+//@ import pgi "github.com/NVIDIA/KAI-scheduler/pkg/scheduler/api/podgroup_info"
+//@ import sgi "github.com/NVIDIA/KAI-scheduler/pkg/scheduler/api/podgroup_info/subgroup_info"
+
+// Elastic state of a job w.r.t. the minimum size of its pod sets:
+//   0 = some pod set has fewer active allocated tasks than its minimum (gang not yet satisfied),
+//   1 = every pod set is exactly at its minimum, 2 = no pod set below and some pod set above.
+//@ define psBelow(ps *sgi.PodSet) bool = ps.numActiveAllocatedTasks < ps.minAvailable
+//@ define psAbove(ps *sgi.PodSet) bool = ps.numActiveAllocatedTasks > ps.minAvailable
+//@ define jobBelow(j *pgi.PodGroupInfo) bool = exists k in j.PodSets :: psBelow(j.PodSets[k])
+//@ define jobAbove(j *pgi.PodGroupInfo) bool = exists k in j.PodSets :: psAbove(j.PodSets[k])
+//@ define elState(j *pgi.PodGroupInfo) int = ite(jobBelow(j), 0, ite(jobAbove(j), 2, 1))
+//@ define podSetsOK(j *pgi.PodGroupInfo) bool = j != nil && (forall k in j.PodSets :: j.PodSets[k] != nil)
+//@ define sgn(d int) int = ite(d < 0, 0 - 1, ite(d > 0, 1, 0))
+
+//@ func minAvailableState
+//@   props C16 C06
+//@   requires podSetsOK(pgi)
+//@   pure
+//@   loop 1
+//@     invariant forall k in visited :: k in pgi.PodSets
+//@     invariant forall k in visited :: !psBelow(pgi.PodSets[k])
+//@     invariant exactlyAtMinAvailable == !(exists k in visited :: psAbove(pgi.PodSets[k]))
+//@   ensures [below] result0 == jobBelow(pgi)
+//@   ensures [above] result1 == (!jobBelow(pgi) && jobAbove(pgi))
+//@   ensures [exact] result2 == (!jobBelow(pgi) && !jobAbove(pgi))
+//@ end
+
+// C16: the elastic comparator only separates jobs of different elastic state (below minimum first,
+// then exactly at minimum, then above minimum); for two jobs in the same state (e.g. two workloads
+// "identical in gang shape" that are both entirely pending) it is neutral, so priority/FIFO decide.
+//@ func JobOrderFn
+//@   props C16
+//@   requires typeis(l, "*pgi.PodGroupInfo") && typeis(r, "*pgi.PodGroupInfo")
+//@   requires podSetsOK(unbox(l, "*pgi.PodGroupInfo")) && podSetsOK(unbox(r, "*pgi.PodGroupInfo"))
+//@   pure
+//@   ensures result == sgn(elState(unbox(l, "*pgi.PodGroupInfo")) - elState(unbox(r, "*pgi.PodGroupInfo")))
+//@   ensures [sameStateNeutral] elState(unbox(l, "*pgi.PodGroupInfo")) == elState(unbox(r, "*pgi.PodGroupInfo")) <==> result == 0
+//@   ensures [belowMinFirst] jobBelow(unbox(l, "*pgi.PodGroupInfo")) && !jobBelow(unbox(r, "*pgi.PodGroupInfo")) ==> result == 0 - 1
+//@   lemma [antisym] result == 0 - sgn(elState(unbox(r, "*pgi.PodGroupInfo")) - elState(unbox(l, "*pgi.PodGroupInfo")))
+//@ end
